@@ -11,6 +11,9 @@ import (
 	"time"
 
 	"com.tuntun.rangers/node/src/common"
+	"com.tuntun.rangers/node/src/consensus/groupsig"
+	"com.tuntun.rangers/node/src/consensus/model"
+	cnet "com.tuntun.rangers/node/src/consensus/net"
 	middleware_pb "com.tuntun.rangers/node/src/middleware/pb"
 	"com.tuntun.rangers/node/src/middleware/types"
 	"com.tuntun.rangers/node/src/network"
@@ -37,6 +40,7 @@ type c09Plan struct {
 	Blocks    int    `json:"blocks"`
 	Corrupt   []c09C `json:"corrupt"`
 	SchedSeed uint64 `json:"sched_seed"`
+	Conc      int    `json:"conc,omitempty"` // concurrent users of the codec (scheduler tasks); 0 = none
 	ZoneH     int    `json:"zone_h"`
 	Nanos     int    `json:"nanos"`
 }
@@ -64,15 +68,15 @@ func (c09) Budget(tier string) runner.Budget {
 
 func (c09) Describe() runner.Description {
 	return runner.Description{
-		Rule:        "each plan: (A) a node casts 1..4 blocks with transfer / contract transactions; every block, header, transaction and group the node produced or parsed is sent through Marshal/UnMarshal: the parsed object must re-hash to the sender's identifying hash and re-marshal to identical bytes; a block accepted by one incarnation is relayed as bytes and must be accepted by another with the same hash; edge-valued in-memory headers/transactions/groups (times in a seeded zone with sub-second part, zero and maximal integers, nil vs empty byte fields, prove values whose bytes start with zeros, request-id maps, empty and 200-transaction bodies) must reach a fixed point after one marshal/parse pass; the genesis header and fully populated boundary headers (prove value 0/1/255/256, zero counters, epoch times) and 10 seeded transactions with unusual field texts (upper-case / EIP-55 / 0X-prefixed / non-address sources and targets, binary and unicode data, extreme nonces and request ids) must keep their hash and every field; bytes returned by any Marshal call must not change when the codec is used again. (B) 20..120 corrupted deliveries: valid bytes of each message kind are bit-flipped, truncated, extended, stripped of one optional protobuf field, or replaced by random bytes, and handed to the exported parsers directly and, as envelopes or as gateway frames (every method code, with the network-id prefix of the to-manager method, also cut short), to the node's receive path (NewBlockMsg, ReqTransactionMsg, TransactionGotMsg handlers run as scheduler tasks). Any panic is a violation; afterwards an intact block must still be accepted. evaluations = codec round trips + corrupted deliveries. distinct_nontrivial = distinct (message kind, corruption kind, parse outcome, path) tuples.",
-		Assumptions: []string{"consensus message decoders run under ConsensusHandler.Handle's recover() and cannot crash the process; they are not driven here", "sync-processor message kinds are not driven (the sync processor is not started)"},
-		Real:        []string{"middleware/types serialization (all Marshal*/UnMarshal*, PbTo*)", "network envelope codec and receive dispatch", "core ChainHandler (new block, transaction request)", "notify bus fan-out under the simulated scheduler", "golang/protobuf"},
-		Stub:        []string{"websocket gate", "ConsensusHelper", "sync processor / consensus handler"},
-		FaultKinds:  []string{"corrupt_bitflip", "corrupt_truncate", "corrupt_extend", "corrupt_dropfield", "corrupt_random", "relay_between_incarnations", "frame_truncated"},
+		Rule:        "each plan: (A) a node casts 1..4 blocks with transfer / contract transactions; every block, header, transaction and group the node produced or parsed is sent through Marshal/UnMarshal: the parsed object must re-hash to the sender's identifying hash and re-marshal to identical bytes; a block accepted by one incarnation is relayed as bytes and must be accepted by another with the same hash; edge-valued in-memory headers/transactions/groups (times in a seeded zone with sub-second part, zero and maximal integers, nil vs empty byte fields, prove values whose bytes start with zeros, request-id maps, empty and 200-transaction bodies) must reach a fixed point after one marshal/parse pass; the genesis header and fully populated boundary headers (prove value 0/1/255/256, zero counters, epoch times) and 10 seeded transactions with unusual field texts (upper-case / EIP-55 / 0X-prefixed / non-address sources and targets, binary and unicode data, extreme nonces and request ids, sub transactions moving balance / coins / fungible tokens / assets) must keep their hash and every field; bytes returned by any Marshal call must not change when the codec is used again. (C, 40% of the plans) 2-3 scheduler tasks marshal the node's blocks, headers, transactions and the group concurrently (statement-level yield points inside middleware/types): every caller must receive exactly the bytes the same call returns alone; the same plans run in the race-detector stage. (B) 20..120 corrupted deliveries: valid bytes of each message kind are bit-flipped, truncated, extended, stripped of one optional protobuf field, or replaced by random bytes, and handed to the exported parsers directly and, as envelopes or as gateway frames (every method code, with the network-id prefix of the to-manager method, also cut short), to the node's receive path (NewBlockMsg, ReqTransactionMsg, TransactionGotMsg handlers run as scheduler tasks); consensus messages (block proposal, verification share, key share piece, signing-key announcement; built as the consensus encoders build them, then corrupted) take the same path into the real ConsensusHandler.Handle, which the connection starts as a goroutine = a scheduler task, and through consensus/net/msg_decode.go. Any panic that escapes is a violation; afterwards an intact block must still be accepted. evaluations = codec round trips + corrupted deliveries. distinct_nontrivial = distinct (message kind, corruption kind, parse outcome, path) tuples.",
+		Assumptions: []string{"sync-processor message kinds are not driven (the sync processor is not started)"},
+		Real:        []string{"middleware/types serialization (all Marshal*/UnMarshal*, PbTo*)", "network envelope codec and receive dispatch (instrumented: its goroutines are scheduler tasks)", "consensus/net ConsensusHandler.Handle + msg_decode + group-creation state machines", "core ChainHandler (new block, transaction request)", "notify bus fan-out under the simulated scheduler", "golang/protobuf"},
+		Stub:        []string{"websocket gate", "ConsensusHelper", "sync processor", "consensus message processors behind the real ConsensusHandler (decoded messages are dropped)"},
+		FaultKinds:  []string{"corrupt_bitflip", "corrupt_truncate", "corrupt_extend", "corrupt_dropfield", "corrupt_random", "relay_between_incarnations", "frame_truncated", "consensus_message_corrupted", "concurrent_codec_callers"},
 	}
 }
 
-var c09Msgs = []string{"tx", "txs", "block", "header", "group", "env-block", "env-txs", "env-txreq", "env-raw"}
+var c09Msgs = []string{"tx", "txs", "block", "header", "group", "env-block", "env-txs", "env-txreq", "env-raw", "env-cast", "env-verify", "env-keypiece", "env-signpk"}
 var c09Kinds = []string{"bitflip", "truncate", "extend", "dropfield", "dropfield", "random"}
 
 func (c09) Gen(seed uint64, tier string) json.RawMessage {
@@ -81,6 +85,9 @@ func (c09) Gen(seed uint64, tier string) json.RawMessage {
 	n := r.Range(20, 60)
 	if r.Chance(0.3) {
 		n = r.Range(61, 120)
+	}
+	if r.Chance(0.4) {
+		p.Conc = r.Range(2, 3)
 	}
 	for i := 0; i < n; i++ {
 		c := c09C{Msg: c09Msgs[r.Intn(len(c09Msgs))], Kind: c09Kinds[r.Intn(len(c09Kinds))], Arg: r.Intn(1 << 24), Via: "direct"}
@@ -186,6 +193,41 @@ func c09PanicWhere(stack string) string {
 	return "unknown"
 }
 
+// the consensus layer's message processors: the decoded message is dropped (decoding is the subject here)
+type c09GroupStub struct{}
+
+func (c09GroupStub) OnMessageCreateGroupPing(*model.CreateGroupPingMessage)                   {}
+func (c09GroupStub) OnMessageCreateGroupPong(*model.CreateGroupPongMessage)                   {}
+func (c09GroupStub) OnMessageParentGroupConsensus(*model.ParentGroupConsensusMessage)         {}
+func (c09GroupStub) OnMessageParentGroupConsensusSign(*model.ParentGroupConsensusSignMessage) {}
+func (c09GroupStub) OnMessageGroupInit(*model.GroupInitMessage)                               {}
+func (c09GroupStub) OnMessageSharePiece(*model.SharePieceMessage)                             {}
+func (c09GroupStub) OnMessageSignPK(*model.SignPubKeyMessage)                                 {}
+func (c09GroupStub) OnMessageGroupInited(*model.GroupInitedMessage)                           {}
+func (c09GroupStub) OnMessageSharePieceReq(*model.ReqSharePieceMessage)                       {}
+func (c09GroupStub) OnMessageSharePieceResponse(*model.ResponseSharePieceMessage)             {}
+func (c09GroupStub) OnMessageSignPKReq(*model.SignPubkeyReqMessage)                           {}
+
+type c09MiningStub struct{}
+
+func (c09MiningStub) Ready() bool                                   { return true }
+func (c09MiningStub) OnMessageCast(*model.ConsensusCastMessage)     {}
+func (c09MiningStub) OnMessageVerify(*model.ConsensusVerifyMessage) {}
+
+// RacePlan / RaceFrames: race-detector stage (DESIGN.md 13.4) over concurrent callers of the codec.
+func (c09) RacePlan(seed uint64, i int) json.RawMessage {
+	var p c09Plan
+	json.Unmarshal(c09{}.Gen(runner.PlanSeed(seed, "C09-race", i), "quick"), &p)
+	p.Conc = 2 + i%2
+	p.Corrupt = nil
+	b, _ := json.Marshal(p)
+	return b
+}
+
+func (c09) RaceFrames() []string {
+	return []string{"/src/middleware/types.", "/src/middleware/pb."}
+}
+
 func (c09) Exec(raw json.RawMessage, st *simrt.Stats, log *simrt.Log) *simrt.Violation {
 	var p c09Plan
 	if err := json.Unmarshal(raw, &p); err != nil {
@@ -198,7 +240,7 @@ func (c09) Exec(raw json.RawMessage, st *simrt.Stats, log *simrt.Log) *simrt.Vio
 	}
 	disk := simdisk.NewDisk()
 	n := node.Boot(disk, node.ForksLatestSync, true)
-	network.SimInit(nil)
+	network.SimInit(cnet.SimNewHandler(c09GroupStub{}, c09MiningStub{}))
 	genesisImage := disk.Clone()
 
 	// ---- (A) lossless: objects produced by the node ----
@@ -382,6 +424,24 @@ func (c09) Exec(raw json.RawMessage, st *simrt.Stats, log *simrt.Log) *simrt.Vio
 			}
 			if r.Chance(0.4) {
 				tx.SubTransactions = []types.UserData{{Address: uint64(r.Intn(3))}}
+			} else if r.Chance(0.6) {
+				// game / operator events: sub transactions that move balance, coins, fungible tokens and assets
+				for j, nsub := 0, r.Range(1, 3); j < nsub; j++ {
+					u := types.UserData{Address: uint64(r.Intn(1 << 20))}
+					if r.Chance(0.5) {
+						u.Balance = []string{"1.5", "0", "1000000000000000000", "-3"}[r.Intn(4)]
+					}
+					if r.Chance(0.5) {
+						u.Coin = map[string]string{"ETH.ETH": fmt.Sprintf("%d", r.Intn(100))}
+					}
+					if r.Chance(0.6) {
+						u.FT = map[string]string{"official-gold": fmt.Sprintf("%d", r.Range(1, 500)), "SYS-ft1": "1"}
+					}
+					if r.Chance(0.5) {
+						u.Assets = map[string]string{"sword-" + strs[r.Intn(3)]: "{\"lv\":3}", "k": ""}
+					}
+					tx.SubTransactions = append(tx.SubTransactions, u)
+				}
 			}
 			tx.Hash = tx.GenHash()
 			w, err := types.MarshalTransaction(tx)
@@ -418,6 +478,15 @@ func (c09) Exec(raw json.RawMessage, st *simrt.Stats, log *simrt.Log) *simrt.Vio
 			if x.RequestId != tx.RequestId || x.ExtraDataType != tx.ExtraDataType || (tx.Sign == nil) != (x.Sign == nil) ||
 				(tx.Sign != nil && !bytes.Equal(tx.Sign.Bytes(), x.Sign.Bytes())) {
 				return viol(-1, "field-changed-by-codec", "edge-transaction", "a field outside the hash (request id, extra-data type, signature) changed across marshal/parse")
+			}
+			if len(x.SubTransactions) != len(tx.SubTransactions) {
+				return viol(-1, "field-changed-by-codec", "edge-transaction-sub-transactions", "%d sub transactions sent, %d received", len(tx.SubTransactions), len(x.SubTransactions))
+			}
+			for j, u := range tx.SubTransactions {
+				v := x.SubTransactions[j]
+				if v.Address != u.Address || v.Balance != u.Balance || !reflect.DeepEqual(v.Coin, u.Coin) || !reflect.DeepEqual(v.FT, u.FT) || !reflect.DeepEqual(v.Assets, u.Assets) {
+					return viol(-1, "field-changed-by-codec", "edge-transaction-sub-transactions", "sub transaction %d sent as %+v arrives as %+v", j, u, v)
+				}
 			}
 			w2, _ := types.MarshalTransaction(&x)
 			if !bytes.Equal(w, w2) {
@@ -475,7 +544,7 @@ func (c09) Exec(raw json.RawMessage, st *simrt.Stats, log *simrt.Log) *simrt.Vio
 	// relay: another incarnation accepts the relayed bytes with the same hashes
 	{
 		rn := node.Boot(genesisImage.Clone(), node.ForksLatestSync, true)
-		network.SimInit(nil)
+		network.SimInit(cnet.SimNewHandler(c09GroupStub{}, c09MiningStub{}))
 		for i, b := range blocks {
 			wire, _ := types.MarshalBlock(b)
 			pb, err := types.UnMarshalBlock(wire)
@@ -491,6 +560,55 @@ func (c09) Exec(raw json.RawMessage, st *simrt.Stats, log *simrt.Log) *simrt.Vio
 		}
 		st.Fault("relay_between_incarnations")
 		n = rn
+	}
+
+	// ---- (C) the codec under concurrent callers (verifiers hash MarshalBlock, the chain stores blocks and
+	// headers, the pool stores transactions, the relay marshals the block, all on their own goroutines) ----
+	if p.Conc > 0 {
+		type cobj struct {
+			kind string
+			enc  func() ([]byte, error)
+			ref  []byte
+		}
+		var objs []cobj
+		for _, b := range blocks {
+			b := b
+			objs = append(objs, cobj{kind: "block", enc: func() ([]byte, error) { return types.MarshalBlock(b) }},
+				cobj{kind: "header", enc: func() ([]byte, error) { return types.MarshalBlockHeader(b.Header) }})
+			if len(b.Transactions) > 0 {
+				objs = append(objs, cobj{kind: "transactions", enc: func() ([]byte, error) { return types.MarshalTransactions(b.Transactions) }},
+					cobj{kind: "transaction", enc: func() ([]byte, error) { return types.MarshalTransaction(b.Transactions[0]) }})
+			}
+		}
+		objs = append(objs, cobj{kind: "group", enc: func() ([]byte, error) { return types.MarshalGroup(g) }})
+		for i := range objs {
+			objs[i].ref, _ = objs[i].enc() // sequential reference
+		}
+		var cviol *simrt.Violation
+		var names []string
+		var bodies []func()
+		for k := 0; k < p.Conc; k++ {
+			k := k
+			names = append(names, fmt.Sprintf("codec-user-%d", k))
+			bodies = append(bodies, func() {
+				for round := 0; round < 6 && cviol == nil; round++ {
+					o := objs[(k*7+round*3)%len(objs)]
+					got, err := o.enc()
+					if (err != nil || !bytes.Equal(got, o.ref)) && cviol == nil {
+						cviol = viol(-1, "concurrent-marshal-corrupted", o.kind, "caller %d of %d concurrent callers received bytes for its %s that differ from the bytes the same call returns alone (err=%v)", k, p.Conc, o.kind, err)
+					}
+				}
+			})
+		}
+		st.Fault("concurrent_codec_callers")
+		cres := simsched.Run(simsched.Options{Seed: p.SchedSeed ^ 0xc0dec, Policy: "random", MaxPreempt: -1, MaxSteps: 2000000}, names, bodies)
+		if cres.Panic != nil {
+			return viol(-1, "parser-panics", c09PanicWhere(fmt.Sprint(cres.Panic)), "the codec panicked under concurrent callers: %v", cres.Panic)
+		}
+		if cviol != nil {
+			return cviol
+		}
+		st.Evaluations++
 	}
 
 	// ---- (B) total: corrupted deliveries ----
@@ -515,8 +633,39 @@ func (c09) Exec(raw json.RawMessage, st *simrt.Stats, log *simrt.Log) *simrt.Vio
 	bh := sample.Header.Height
 	base["txreq"], _ = proto.Marshal(&middleware_pb.TransactionRequestMessage{CurrentBlockHash: sample.Header.Hash.Bytes(), BlockHeight: &bh, BlockPv: []byte{1},
 		TransactionHashes: []*middleware_pb.TransactionHash{{Hash: stx.Hash.Bytes(), SubHash: stx.SubHash.Bytes()}}})
+	// consensus messages as the consensus layer's encoders put them on the wire
+	{
+		var seed [32]byte
+		copy(seed[:], simrt.NewRand(p.Seed^0xc0de).Bytes(32))
+		sk := groupsig.NewSeckeyFromBigInt(new(big.Int).SetBytes(seed[:31]))
+		pk := groupsig.GeneratePubkey(*sk)
+		id := groupsig.DeserializeID(common.Sha256(seed[:]))
+		sig := groupsig.Sign(*sk, sample.Header.Hash.Bytes())
+		ver := int32(1)
+		cnt := int32(3)
+		sd := &middleware_pb.SignData{DataHash: sample.Header.Hash.Bytes(), DataSign: sig.Serialize(), SignMember: id.Serialize(), Version: &ver}
+		base["cast"], _ = proto.Marshal(&middleware_pb.ConsensusCastMessage{Bh: types.BlockHeaderToPb(sample.Header), GroupID: sample.Header.GroupId, Sign: sd,
+			ProveHash: [][]byte{common.Sha256([]byte{1}), common.Sha256([]byte{2})}})
+		base["verify"], _ = proto.Marshal(&middleware_pb.ConsensusVerifyMessage{BlockHash: sample.Header.Hash.Bytes(), RandomSign: sig.Serialize(), Sign: sd})
+		base["keypiece"], _ = proto.Marshal(&middleware_pb.ConsensusSharePieceMessage{GHash: common.Sha256([]byte{3}), Dest: id.Serialize(),
+			SharePiece: &middleware_pb.SharePiece{Seckey: sk.Serialize(), Pubkey: pk.Serialize()}, MemCnt: &cnt, Sign: sd})
+		base["signpk"], _ = proto.Marshal(&middleware_pb.ConsensusSignPubKeyMessage{GHash: common.Sha256([]byte{3}), GroupID: id.Serialize(), SignPK: pk.Serialize(), MemCnt: &cnt, SignData: sd})
+		for _, k := range []string{"cast", "verify", "keypiece", "signpk"} {
+			if len(base[k]) == 0 {
+				panic(runner.InfraError{Msg: "C09: cannot encode the consensus message " + k})
+			}
+		}
+	}
 	pbOf := func(kind string) proto.Message {
 		switch kind {
+		case "cast":
+			return new(middleware_pb.ConsensusCastMessage)
+		case "verify":
+			return new(middleware_pb.ConsensusVerifyMessage)
+		case "keypiece":
+			return new(middleware_pb.ConsensusSharePieceMessage)
+		case "signpk":
+			return new(middleware_pb.ConsensusSignPubKeyMessage)
 		case "tx":
 			return new(middleware_pb.Transaction)
 		case "txs":
@@ -550,6 +699,17 @@ func (c09) Exec(raw json.RawMessage, st *simrt.Stats, log *simrt.Log) *simrt.Vio
 				inner, code = "txreq", network.ReqTransactionMsg
 			case "env-raw":
 				inner, code = "tx", network.TransactionGotMsg
+			case "env-cast":
+				inner, code = "cast", network.CastVerifyMsg
+			case "env-verify":
+				inner, code = "verify", network.VerifiedCastMsg
+			case "env-keypiece":
+				inner, code = "keypiece", network.KeyPieceMsg
+			case "env-signpk":
+				inner, code = "signpk", network.SignPubkeyMsg
+			}
+			if inner == "cast" || inner == "verify" || inner == "keypiece" || inner == "signpk" {
+				st.Fault("consensus_message_corrupted")
 			}
 			body := c09Corrupt(base[inner], c, pbOf(inner), r)
 			if body == nil {
